@@ -129,4 +129,14 @@ PROPS = {
         "assumptions": ["String/Summary/LongString go through fmt and regexp, which the model abstracts as total; they are exercised by the harness only"],
         "trusted_base": ["modelled, not verified: all decoding entry points; observers are exercised on the real code only (recover + watchdog)"],
     },
+    "C08": {
+        "coq_files": BASE + ["Alias/", "Gen/Alias.v", "Props/C08.v", "V6/Model.v", "V4/Model.v", "Label/Model.v"],
+        "tie_lemmas": ["retention_sites_match"],
+        "rule": "accepted DHCPv6 messages covering every option type of the table at top level, inside IA_NA, inside relay messages, with NTP FQDN and domain-list options, relay chains; "
+                "every option type alone through ParseOption; DHCPv4 packets with typed options; label sets and DUIDs; each decoded from a private buffer, snapshot "
+                "(ToBytes, value-tree dump, Summary, String, accessor results), buffer overwritten with all-zero / all-0xFF / 0x05.. / 0x01.. / random / next-packet patterns, "
+                "snapshot again; output buffers scribbled and re-encoded; non-trivial = distinct accepted input",
+        "assumptions": ["the static retention analysis of tools/gen covers functions named *FromBytes*, *Unmarshal*, *parse* taking a []byte parameter in dhcpv4, dhcpv6, rfc1035label, iana"],
+        "trusted_base": ["tools/gen's syntactic classification of storage sites; the overwrite harness decides on the real code"],
+    },
 }
